@@ -227,7 +227,7 @@ def c06_streams(seed, tier):
 
 def c07_streams(seed, tier):
     prof = \
-        Profile(**PLAIN, actions=NONCONSUMING, n_ctx=(2, 4), n_entities=(2, 3), lifecycle_p=0.6, post_p=0.1, react_p=0.2, n_frames=(6, 16),
+        Profile(script_kinds=[0], **PLAIN, actions=NONCONSUMING, n_ctx=(2, 4), n_entities=(2, 3), lifecycle_p=0.6, post_p=0.1, react_p=0.2, n_frames=(6, 16),
                 n_actions=(1, 2), n_inputs=(1, 2), keys=[0, 1], cond_kinds=SCRIPTED, mod_kinds=CUSTOM_MODS, n_variants=(1, 3))
     sc = gen.app_batch(seed, 400 if tier == "quick" else 12000, prof, "c07r")
     sc += lifecycle_exhaustive("c07x", 3 if tier == "quick" else 4)
@@ -316,7 +316,7 @@ def c13_streams(seed, tier):
 
 
 def c14_streams(seed, tier):
-    prof = Profile(actions=NONCONSUMING, n_entities=(2, 4), ctx_pool=[0, 1, 2, 3, 5], n_ctx=(2, 3), lifecycle_p=0.35, react_p=0.3, n_variants=(1, 3),
+    prof = Profile(script_kinds=[0], actions=NONCONSUMING, n_entities=(2, 4), ctx_pool=[0, 1, 2, 3, 5], n_ctx=(2, 3), lifecycle_p=0.35, react_p=0.3, n_variants=(1, 3),
                    pads=(0, 2), pad_ctx_p=0.5, cond_kinds=SCRIPTED, mod_kinds=CUSTOM_MODS)
     return gen.app_batch(seed, 400 if tier == "quick" else 12000, prof, "c14r")
 
@@ -649,11 +649,83 @@ def c19_route_pairs(seed, n):
     return out
 
 
+def expand_each(sc):
+    """the same configuration with every `emod` / `econd` line written out per input (each binding gets them after its own
+    modifiers / conditions); None if a block combines them with presets or list routes"""
+    out, block = [], []
+
+    def flush():
+        nonlocal block
+        if not block:
+            return True
+        em = [l for l in block if l.startswith("emod ")]
+        ec = [l for l in block if l.startswith("econd ")]
+        if (em or ec) and any(l.startswith("preset ") or l in ("route 4", "route 5") for l in block):
+            return False
+        items, cur = [], None
+        for l in block:
+            if l.startswith(("emod ", "econd ")):
+                continue
+            if l.startswith("in "):
+                if cur:
+                    items.append(cur)
+                cur = [l]
+            elif cur is not None and l.startswith(("imod ", "icond ")):
+                cur.append(l)
+            else:
+                if cur:
+                    items.append(cur)
+                    cur = None
+                items.append([l])
+        if cur:
+            items.append(cur)
+        for it in items:
+            if it[0].startswith("in "):
+                mods = [l for l in it if l.startswith("imod ")] + ["imod " + l[5:] for l in em]
+                conds = [l for l in it if l.startswith("icond ")] + ["icond " + l[6:] for l in ec]
+                out.extend([it[0]] + mods + conds)
+            else:
+                out.extend(it)
+        block = []
+        return True
+    for l in sc:
+        w = l.split()[0]
+        if w in ("route", "amod", "acond", "emod", "econd", "in", "imod", "icond", "preset"):
+            block.append(l)
+        else:
+            if not flush():
+                return None
+            out.append(l)
+    if not flush():
+        return None
+    return out
+
+
+def c19_each_pairs(seed, n):
+    """`with_modifiers_each` / `with_conditions_each` against the same (input, modifiers, conditions) sequence written per input"""
+    prof = Profile(route_p=0.0, each_p=0.8, preset_p=0.0, n_inputs=(1, 4), n_ctx=(1, 2), lifecycle_p=0.03, cond_kinds=SCRIPTED,
+                   mod_kinds=CUSTOM_MODS, actions=NONCONSUMING)
+    out = []
+    for i, sc in enumerate(gen.app_batch(seed + 31, n, prof, "x")):
+        e = expand_each(sc)
+        if e is None or e == sc:
+            continue
+        out.append([f"scenario c19e{i}r0"] + e[1:])
+        out.append([f"scenario c19e{i}r9"] + sc[1:])
+    return out
+
+
 def c19_streams(seed, tier):
     prof = Profile(actions=NONCONSUMING, route_p=0.6, each_p=0.4, preset_p=0.3, n_inputs=(1, 5), rebind_p=0.4, n_ctx=(1, 2), lifecycle_p=0.03,
                    cond_kinds=SCRIPTED, mod_kinds=CUSTOM_MODS, keys=[0, 1, 2, 3, 16, 17])
     n = 150 if tier == "quick" else 6000
-    return c19_compass("c19c") + c19_route_pairs(seed, 40 if tier == "quick" else 1500) + gen.app_batch(seed, n, prof, "c19r")
+    # random configurations with mixed routes, each paired with the same configuration through the default route
+    twins = []
+    for i, sc in enumerate(gen.app_batch(seed, n, prof, "x")):
+        twins.append([f"scenario c19t{i}r0"] + [l for l in sc[1:] if not l.startswith("route ")])
+        twins.append([f"scenario c19t{i}r9"] + sc[1:])
+    return c19_compass("c19c") + c19_route_pairs(seed, 40 if tier == "quick" else 1500) + twins + \
+        c19_each_pairs(seed, 60 if tier == "quick" else 2000)
 
 
 def c09_directed(prefix):
@@ -675,7 +747,7 @@ def c09_directed(prefix):
 
 
 def c09_streams(seed, tier):
-    prof = Profile(actions=NONCONSUMING, inject_first_p=0.4, inject_events_p=0.8, post_p=0.1, react_p=0.2, n_ctx=(1, 2),
+    prof = Profile(script_kinds=[0], actions=NONCONSUMING, inject_first_p=0.4, inject_events_p=0.8, post_p=0.1, react_p=0.2, n_ctx=(1, 2),
                    cond_kinds=SCRIPTED, mod_kinds=CUSTOM_MODS, time_p=0.2, ui_p=0.2,
                    input_kinds=["key"] * 4 + ["mbtn"] * 3 + ["motion", "wheel"], pads=(0, 0))
     return c09_directed("c09d") + gen.app_batch(seed, 300 if tier == "quick" else 10000, prof, "c09r")
@@ -695,7 +767,10 @@ def wide_stream(prop):
     return f
 
 
-WIDE = {p: wide_stream(p) for p in ("C01", "C02", "C03", "C04", "C05", "C06", "C07", "C08", "C09", "C10", "C12", "C13", "C14", "C15", "C16", "C19")}
+# (the reader properties C05, C06, C08, C15, C16 have no wide stream: with consuming actions in play what a binding reads
+# depends on the states of earlier actions, which the trace shows only at the end of the frame, so a first difference in a
+# reading cannot be attributed; their own streams already cover every input kind)
+WIDE = {p: wide_stream(p) for p in ("C01", "C02", "C03", "C04", "C07", "C09", "C10", "C12", "C13", "C14")}
 
 PROPS = {
     "C01": dict(streams=c01_streams, proj=P_EVENTS),
